@@ -173,6 +173,9 @@ type ProbeResult struct {
 func (c *Conn) Probe(scn string) (pr ProbeResult) {
 	vsched.Quiet(func() {
 		cl := c.Cl
+		// the probe runs on a healthy transport: a write fault that has not bitten during the
+		// failed query must not bite the probe's own request instead
+		c.C.ClearWriteFault()
 		if cl.IsClosed() {
 			if !c.C.IsClosed() {
 				pr.Key, pr.Detail = scn+"/closed-client-open-conn", "client reports closed but the connection was never closed"
